@@ -36,6 +36,12 @@ def gen_batch(draw):
     fails = [i for l, i in pool if l.startswith("fail/")]
     fails.append({"op": "Register", "obj": dict(F.obj_spec("SplitKey", "ovf"), prime=2 ** 63, method="POLYNOMIAL_SHARING_PRIME_FIELD"),
                   "attrs": [["Cryptographic Usage Mask", 12]]})       # fails at commit time
+    # state-changing items that are valid but for an optional value at the edge of its range
+    # (whether such an item succeeds or fails, it does so as a whole)
+    for tgt in ("SymmetricKey/ACTIVE", "PrivateKey/ACTIVE", "SymmetricKey/PRE_ACTIVE"):
+        for code in ("KEY_COMPROMISE", "CESSATION_OF_OPERATION"):
+            for d in (2 ** 62, -2 ** 62, 2 ** 31, 0, -1):
+                fails.append({"op": "Revoke", "uid": idx[tgt], "code": code, "cdate": d})
     n = draw(st.sampled_from([1, 2, 2, 3, 3, 4, 5, 6]))
     items = []
     if draw(st.integers(0, 9)) == 0 and tuple(v) < (2, 0):
